@@ -57,6 +57,11 @@ def panel(name, seed=0):
     s = _trend(4, 24, 9, scale=[1.0, 2.0, 2.0, 3.0], noise=2.0)   # means
     s[2] = s[1][::-1].copy()
     return _frame(s, ids=[2, 7, 10, 33]), 7
+  if name == 'P13':    # P1 plus a second row for one (geo, date) cell
+    df, nt = panel('P1')
+    extra = df.iloc[[30]].copy()
+    extra['sales'] = extra['sales'] + 40.0
+    return pd.concat([df, extra], ignore_index=True), nt
   raise KeyError(name)
 
 
